@@ -18,6 +18,8 @@ def rmac(rnd):
 
 def rssid(rnd, maxlen=32):
     l = rnd.choice([0, 1, 2, 31, 32, maxlen, rnd.randrange(0, maxlen + 1)])
+    if maxlen >= 255 and rnd.random() < 0.3:
+        l = rnd.choice([253, 254, 255, 256, 257, 300, 511, 512])     # at and beyond what the one-octet element length can say
     return bytes(rnd.randrange(1, 256) for _ in range(l)).hex() or "-"
 
 
@@ -54,7 +56,7 @@ def gen_line(rnd, kind, ops=True, full=False):
                     break
                 o.append("a:%d:%s" % (rnd.choice([1, 3, 5, 42, 45, 48, 50, 221, 255, rnd.randrange(256)]), bytes(rnd.getrandbits(8) for _ in range(l)).hex() or "-"))
             if full and kind in ("beacon", "probe_resp") and rnd.random() < 0.4:
-                z = rssid(rnd)
+                z = rssid(rnd, 255 if rnd.random() < 0.15 else 32)
                 if rnd.random() < 0.25 and z != "-" and len(z) >= 4:      # a NUL inside the C string ends it
                     cut = 2 * rnd.randrange(0, len(z) // 2)
                     z = z[:cut] + "00" + z[cut + 2:]
@@ -100,8 +102,12 @@ def boundary_lines():
         for mac in ("000000000000", "ffffffffffff"):
             base = "gen %s a1=%s a2=%s a3=%s" % (kind, mac, mac, mac)
             if kind in ("beacon", "probe_req", "probe_resp", "assoc_req", "reassoc_req"):
-                for L in list(range(0, 34)) + [255]:
+                for L in list(range(0, 34)) + [253, 254, 255, 256, 257, 300, 512]:
                     out.append(base + " ssid=%s ch=%d clk=1:0" % (("41" * L) or "-", L % 256))
+                    if L >= 253 and kind in ("beacon", "probe_resp"):
+                        # the long element replaced, removed, and replaced by another long one
+                        for ops in ("s:6e6577", "r:0", "s:" + "42" * 254, "s:" + "43" * 300 + ",s:44", "c:9,s:45"):
+                            out.append(base + " ssid=%s ch=%d clk=1:0 ops=%s" % ("41" * L, L % 256, ops))
             elif kind in ("assoc_resp", "reassoc_resp"):
                 out += [base + " ch=%d" % c for c in range(256)]
             elif kind in ("deauth", "disassoc"):
@@ -169,7 +175,7 @@ def api_lines(rnd, samples3=120, bufs=False):
 
 
 def check(ctx):
-    ctx.rule = ("every generator (16 kinds): boundary arguments (all-zero / all-FF MACs, SSID lengths 0..33 and 255, every channel, every action category, boundary 16-bit reason/duration values%s) "
+    ctx.rule = ("every generator (16 kinds): boundary arguments (all-zero / all-FF MACs, SSID lengths 0..33, 253..257, 300 and 512 (created, then replaced / removed), every channel, every action category, boundary 16-bit reason/duration values%s) "
                 "and seeded random arguments followed by random histories of appended tags / action details up to the one-octet limit (and, marked `full`, setter/remove edits); "
                 "create + edit + get_length + dump into an exact heap block; compared with the model and with the Spec encoding (frame control, zero duration/sequence, addresses, "
                 "little-endian fixed fields, elements in order); distinct = (kind, output)" % (", every 16-bit reason/status/duration value" if ctx.tier == "thorough" else ""))
